@@ -3,7 +3,9 @@
    each jnz, whatever the memory) until the program counter leaves the range; each path records
    the exit offset, the ap movement, the number of instructions executed (steps) and the number of
    double-dereference asserts (range-check / builtin cell uses).  [None] = the statement contains
-   something not followed here (call, ret, computed jump, non-immediate ap +=, fuel).
+   something not followed here (call, ret, absolute / backward computed jump, non-immediate ap +=, fuel).
+   A forward computed relative jump (jump table) is over-approximated: any later instruction of the
+   statement may be its target.
    Since every feasible path is a syntactic path, a bound proved for all enumerated paths holds
    for every execution of the statement.  Model file: no proofs. *)
 From Vmx Require Export Casm.
@@ -42,6 +44,15 @@ Fixpoint rpaths (c : code) (lo hi : Z) (fuel : nat) (pc apk steps rc : Z) : opti
           | _, _ => None
           end
       | Jump (DImm v) true => rpaths c lo hi k (pc + v) apk' (steps + 1) rc
+      | Jump (DDeref _) true =>
+          (* jump table (enum_match with 3+ variants: jmp rel [selector] followed by one jmp per
+             variant): over-approximated by a jump to ANY later instruction of the statement *)
+          let tgts := filter (fun q => (pc <? q) && (q <? hi)) (map fst c) in
+          fold_right (fun q acc =>
+                        match rpaths c lo hi k q apk' (steps + 1) rc, acc with
+                        | Some l1, Some l2 => Some (l1 ++ l2)
+                        | _, _ => None
+                        end) (Some []) tgts
       | AddAp (RImm v) =>
           if inc_ap i then None else
           if (0 <=? v) && (v <? P) then rpaths c lo hi k (pc + isize i) (apk + v) (steps + 1) rc
